@@ -36,12 +36,96 @@ def _render(case):
     return str(out)
 
 
-def _render_seq(case):
-    """several renderings on ONE generator, through held Tag objects where the call says so; -> [(out, contents, err)]"""
+def _apply_pre(gen, pool, op):
+    """one pre-history call (see harness/props/c12.py: same op format; a tag op carries C11's bind description) on the
+    real generator, caught: exception class name or None"""
+    try:
+        kind = op["op"]
+        if kind == "begin":
+            gen.begin(**mc.kwargs_of(op["settings"]))
+        elif kind == "end":
+            gen.end()
+        elif kind == "set":
+            gen.set(**mc.kwargs_of(op["settings"]))
+        elif kind == "setitem":
+            gen[op["key"]] = mc.to_py(op["value"])
+        elif kind == "update":
+            if op.get("pos") is not None:
+                gen.update(mc.kwargs_of(op["pos"]), **mc.kwargs_of(op["settings"]))
+            else:
+                gen.update(**mc.kwargs_of(op["settings"]))
+        elif kind == "tag":
+            bind = "not an element" if op.get("badbind") else mc.make_bind(op["bind"])
+            pool.render(op, bind, mc.kwargs_of(op["kwargs"]))
+        else:
+            raise ValueError(kind)
+    except AssertionError:
+        raise
+    except CaseTimeout:
+        raise
+    except Exception as e:  # noqa
+        return type(e).__name__
+    return None
+
+
+def _rand_pre_seq(rng, calls):
+    """1-3 calls made (and caught) on the generator BEFORE the renderings: a settings call with an unknown option among
+    valid ones / set() with an int option value / end() without begin() (all rejected: they change nothing), or a tag
+    call that raises midway -- on the Tag object a later call holds (same handle), or a fresh one; through open() the
+    failed Tag stays on the generator's open-tag stack and is what `gen.<tag>` hands out next"""
+    from harness.props import c12
+    ops = []
+    for _ in range(rng.choice([1, 1, 2, 3])):
+        r = rng.random()
+        if r < 0.35:
+            ops.append(c12._pre_rejected_settings(rng))
+        elif r < 0.42:
+            ops.append({"op": "end"})
+        else:
+            like = rng.choice(calls)
+            tag, via = like["tag"], like["via"]
+            void = tag.lower() in VOIDS
+            op = {"op": "tag", "tag": tag, "via": via, "handle": like.get("handle") if rng.random() < 0.7 else None,
+                  "how": "call" if void else rng.choice(["call", "open", "open", "openclose"]), "badbind": False,
+                  "bind": {"kind": "scalar", "name": "pre", "u": rng.choice(["left over", "</textarea><b>", "x"])}}
+            if rng.random() < 0.25:
+                op.update(badbind=True, bind=None, kwargs=[["auto_name", S("on")]])
+            elif void and rng.random() < 0.3:
+                op.update(how="open", kwargs=[])             # open() of a void element: ValueError before anything
+            else:
+                op["kwargs"] = [[rng.choice(["rows", "cols", "data-x", "title"]), B(True)]]     # a non-text attribute value
+            ops.append(op)
+    return ops
+
+
+def _reference_seq(case):
+    """the oracle's own settings stack over the pre-history (c12.SettingsRef): -> (settings in force as a pair list,
+    [(expected exception, kind)] per call)"""
+    from harness.props import c12
+    ref = c12.SettingsRef(case["settings"])
+    outcome = []
+    for op in case.get("pre") or []:
+        o = dict(op)
+        if op["op"] == "tag":
+            o["tag"] = op["tag"].lower() if op.get("via") == "tag" else op["tag"]
+        outcome.append(ref.expect(o))
+    eff = {}
+    for lv in reversed(ref.levels):
+        eff.update(lv)
+    return [[k, v] for k, v in eff.items()], outcome
+
+
+def _render_seq(case, pre_errs=None):
+    """the pre-history (each call caught), then several renderings on ONE generator, through held Tag objects where the
+    call says so; -> [(out, contents, err)]"""
     from flatland.out.markup import Generator
     gen = Generator(case["markup"], **mc.kwargs_of(case["settings"]))
     pool = mc.TagPool(gen)
     res = []
+    for op in case.get("pre") or []:
+        err = _apply_pre(gen, pool, op)
+        if pre_errs is not None:
+            pre_errs.append(err)
     for c in case["calls"]:
         try:
             out, contents = pool.render(c, mc.make_bind(c["bind"]), mc.kwargs_of(c["kwargs"]))
@@ -77,8 +161,11 @@ def _rand_seq(rng):
         c["how"] = "call" if void or rng.random() < 0.5 else "openclose"
         c["parse"] = False
         calls.append(c)
-    return {"k": "seq", "markup": rng.choice(["xml", "xhtml", "html"]),
+    case = {"k": "seq", "markup": rng.choice(["xml", "xhtml", "html"]),
             "settings": [["ordered_attributes", B(rng.random() < 0.5)]] if rng.random() < 0.4 else [], "calls": calls}
+    if rng.random() < 0.5:
+        case["pre"] = _rand_pre_seq(rng, calls)
+    return case
 
 
 def _rand_bind(rng):
@@ -243,7 +330,18 @@ class C11(Property):
     level_text = "proof"
     level_note = ("escape chains are regenerated from the source and the theorems re-instantiated by `decide` on every run; "
                   "callTag_parses carries the statement through the hand-written model of the transforms; that model's "
-                  "agreement with the code and html.parser's agreement with the mini parser rest on correspondence")
+                  "agreement with the code and html.parser's agreement with the mini parser rest on correspondence.  "
+                  "FAILURE / RECOVERY PATHS (seq cases, correspondence + oracle): half of the seq cases make 1-3 calls, each "
+                  "caught, on the same generator BEFORE the renderings -- a settings call with an unknown option among valid "
+                  "ones (begin / set / update with positional mapping and keywords / []=; every position), set() with an int "
+                  "option value, end() without begin(), or a tag call that raises midway (non-text attribute value after the "
+                  "transforms stored the body; a bind that is not an element; open() of a void element) on the Tag object a "
+                  "later rendering holds or on a fresh one (a failed open() leaves the Tag on the generator's open-tag stack).  "
+                  "Every rendering that follows is held to the single-call statement under the settings the ORACLE's own "
+                  "reference has in force (c12.SettingsRef: a rejected call changes nothing); the runner makes the settings "
+                  "calls through the C19 model (Flatland.C19.step) and the tag calls through Gen.renderHow (stateless in the Tag "
+                  "object); theorems about that: Proofs/C12Rejected.lean (failed_settings_call_keeps_generator, "
+                  "rejected_call_preserves_rendering), audited by the C12 check")
     technique = "generic theorems over .replace chains + decidable side condition on regenerated tables; parse∘render = id"
     trusted_base = [
         "python html.parser (3.12.1) as the 'standard HTML parser' of the statement; the Lean mini parser covers exactly the "
@@ -261,13 +359,17 @@ class C11(Property):
         "attribute values are str or Markup; bool/Maybe only for auto_* options; element text is an exact str (el.set(Markup(..)) "
         "leaves a Markup in el.u, which renders verbatim: author-marked markup, not data)",
         "strings contain no lone surrogates",
+        "pre-history of a seq case: rejected settings calls and failing tag calls only (no accepted settings call is generated; "
+        "if shrinking produces one, the oracle's reference applies it); a non-element bind is a str with auto_name forced on",
     ]
     rule = ("one Generator call per case: tag kind (7 properties + tag() with void/non-void/custom/upper-case names), markup "
             "xml/xhtml/html, ordered/unordered attributes, optional bind (String/Boolean/Array with hostile name and text), 0-6 "
             "author attributes with hostile values (text, escaped Markup, verbatim Markup), tag-level auto_* options, optional "
             "domid/for/tabindex settings, optional contents; plus Element.x/.xa cases.  Hostile alphabet: quotes, angle brackets, "
             "ampersand, ;, #, control characters, NUL, closing-tag look-alikes, half-finished references, non-BMP.  non-trivial = "
-            "some data string contains one of \" < > & or a control character; distinct = distinct canonical case JSON")
+            "some data string contains one of \" < > & or a control character; seq cases (4%): 2-6 renderings on one generator, "
+            "half of them after a pre-history of 1-3 rejected generator calls / failing tag calls (tags pre=<n>, "
+            "pre-rej=<kind>:<call>:<position>, pre-tag:<how>:<same-held-Tag|fresh-Tag>); distinct = distinct canonical case JSON")
     quick_n = 100000
     case_timeout = 60      # the machine is shared: a stalled worker must not look like a hang of the library
     thorough_n = 600000
@@ -292,6 +394,33 @@ class C11(Property):
                 dict(base, tag="textarea", bind={"kind": "scalar", "name": "n1", "u": ""}, kwargs=[], handle="t", how="call", parse=False),
                 dict(base, tag="textarea", bind={"kind": "scalar", "name": "n2", "u": "x"}, kwargs=[], handle="t", how="openclose", parse=False),
                 dict(base, tag="textarea", bind={"kind": "scalar", "name": "n3", "u": ""}, kwargs=[], handle="t", how="openclose", parse=False)]},
+            # seeded mutation C11-tag-open-keeps-stale-contents, the failure / recovery path: open() raises midway (rows=True
+            # is not text) AFTER the transforms stored the body; the Tag stays on the generator's open-tag stack and serves
+            # the next, empty, field -- through gen.textarea (fresh handle), and through a held reference
+            {"k": "seq", "markup": "html", "settings": [],
+             "pre": [{"op": "tag", "tag": "textarea", "via": "prop", "handle": None, "how": "open", "badbind": False,
+                      "bind": {"kind": "scalar", "name": "notes", "u": "</textarea><script>alert(\"x\")</script> & <b>"},
+                      "kwargs": [["rows", B(True)]]}],
+             "calls": [
+                dict(base, tag="textarea", bind={"kind": "scalar", "name": "bio", "u": ""}, kwargs=[], how="call", parse=False),
+                dict(base, tag="textarea", bind={"kind": "scalar", "name": "bio", "u": ""}, kwargs=[], how="openclose", parse=False)]},
+            {"k": "seq", "markup": "xhtml", "settings": [],
+             "pre": [{"op": "tag", "tag": "button", "via": "prop", "handle": "b", "how": "call", "badbind": False,
+                      "bind": {"kind": "scalar", "name": "pre", "u": "left over"}, "kwargs": [["title", B(True)]]},
+                     {"op": "tag", "tag": "button", "via": "prop", "handle": "b", "how": "open", "badbind": True, "bind": None,
+                      "kwargs": [["auto_name", S("on")]]},
+                     {"op": "end"}],
+             "calls": [
+                dict(base, tag="button", bind={"kind": "scalar", "name": "n1", "u": ""}, kwargs=[], handle="b", how="call", parse=False),
+                dict(base, tag="button", bind=None, kwargs=[], handle="b", how="openclose", parse=False)]},
+            # seeded mutation C12-context-update-kwargs-after-precheck: a rejected update() must not switch auto_name /
+            # auto_value off for the renderings that follow
+            {"k": "seq", "markup": "xhtml", "settings": [],
+             "pre": [{"op": "update", "pos": None, "settings": [["auto_name", B(False)], ["auto_value", S("off")], ["no_such", B(True)]]},
+                     {"op": "update", "pos": [["auto_value", B(False)]], "settings": [["auto_nmae", B(True)]]}],
+             "calls": [
+                dict(base, tag="input", bind={"kind": "scalar", "name": 'a"b', "u": '"><script>'}, kwargs=[["type", S("text")]], how="call", parse=False),
+                dict(base, tag="textarea", bind={"kind": "scalar", "name": "t", "u": "x < y"}, kwargs=[], how="openclose", parse=False)]},
         ]
         return cases
 
@@ -327,7 +456,9 @@ class C11(Property):
             return {"x": mc.safe(el.x), "xa": mc.safe(el.xa), "x_dec": mc.safe(html.unescape(el.x)),
                     "xa_dec": mc.safe(html.unescape(el.xa))}
         if case["k"] == "seq":
-            return {"init_err": None, "outs": [{"out": mc.safe(o), "contents": mc.safe(c), "err": e} for o, c, e in _render_seq(case)]}
+            pre_errs = []
+            outs = [{"out": mc.safe(o), "contents": mc.safe(c), "err": e} for o, c, e in _render_seq(case, pre_errs)]
+            return {"init_err": None, "pre": [{"err": e} for e in pre_errs], "outs": outs}
         try:
             out = _render(case)
         except AssertionError:
@@ -351,9 +482,17 @@ class C11(Property):
         if case["k"] == "seq":
             # every rendering of the sequence is held to the single-call statement: a Tag object or a generator must
             # not carry anything (a body, attributes) from one rendering into the next
+            # A pre-history of calls on the same generator / the same held Tag comes first: the settings in force are the
+            # oracle's own (a rejected call changes nothing), and a tag call that raised must leave nothing behind either
             fails = []
-            for i, (c, (out, _, err)) in enumerate(zip(case["calls"], _render_seq(case))):
-                one = dict(c, k="tag", markup=case["markup"], settings=case["settings"])
+            pre_errs = []
+            rendered = _render_seq(case, pre_errs)
+            in_force, outcome = _reference_seq(case)
+            for i, ((want, _), got) in enumerate(zip(outcome, pre_errs)):
+                if want != got:
+                    fails.append({"clause": "pre-history-outcome", "op": i, "expected": want, "observed": got})
+            for i, (c, (out, _, err)) in enumerate(zip(case["calls"], rendered)):
+                one = dict(c, k="tag", markup=case["markup"], settings=in_force)
                 for f in self._oracle_one(one, out, err):
                     fails.append(dict(f, call=i))
             return fails
@@ -501,7 +640,15 @@ class C11(Property):
                 t.append("held-tag-object")
             if any(c.get("how") == "openclose" for c in case["calls"]):
                 t.append("open-contents-close")
-            return t
+            pre = case.get("pre") or []
+            t.append("pre=%d" % len(pre))
+            if pre:
+                for op, (e, kind) in zip(pre, _reference_seq(case)[1]):
+                    t.append("pre-rej=%s" % kind if kind else "pre-ok=%s" % op["op"])
+                    if op["op"] == "tag":
+                        same = any(c.get("handle") is not None and c.get("handle") == op.get("handle") for c in case["calls"])
+                        t.append("pre-tag:%s:%s" % (op.get("how", "call"), "same-held-Tag" if same else "fresh-Tag"))
+            return sorted(set(t))
         t = ["kind=tag", "markup=%s" % case["markup"], "via=%s" % case["via"], "tag=%s" % case["tag"].lower(),
              "bind=%s" % (case["bind"]["kind"] if case["bind"] else "none"), "nkwargs=%d" % len(case["kwargs"]),
              "contents=%s" % case["contents_flavour"], "err=%s" % obs.get("err")]
@@ -537,6 +684,10 @@ class C11(Property):
                 yield dict(case, u=s)
             return
         if case["k"] == "seq":
+            for i in range(len(case.get("pre") or [])):
+                c = copy.deepcopy(case)
+                del c["pre"][i]
+                yield c
             for i in range(len(case["calls"])):
                 c = copy.deepcopy(case)
                 del c["calls"][i]
